@@ -355,8 +355,8 @@ Definition iter_opt (rs : list (option drange)) : option drange :=
   end.
 
 (* DegreeEnvironment *)
-Record denv := { de_deg : list (vname * drange); de_types : list (vname * vtype) }.
-Definition denv0 : denv := {| de_deg := []; de_types := [] |}.
+Record denv := { de_deg : list (vname * drange); de_types : list (vname * vtype); de_assigned : list vname }.
+Definition denv0 : denv := {| de_deg := []; de_types := []; de_assigned := [] |}.
 
 Fixpoint assoc_get {A} (l : list (vname * A)) (v : vname) : option A :=
   match l with
@@ -372,10 +372,13 @@ Fixpoint assoc_set {A} (l : list (vname * A)) (v : vname) (x : A) : list (vname 
 Definition denv_degree (env : denv) (v : vname) : option drange := assoc_get (de_deg env) v.
 (* HashMap::insert overwrites; true iff there was no previous entry *)
 Definition denv_set_degree (env : denv) (v : vname) (r : drange) : denv * bool :=
-  ({| de_deg := assoc_set (de_deg env) v r; de_types := de_types env |},
+  ({| de_deg := assoc_set (de_deg env) v r; de_types := de_types env; de_assigned := de_assigned env |},
    match assoc_get (de_deg env) v with None => true | Some _ => false end).
 Definition denv_set_type (env : denv) (v : vname) (t : vtype) : denv :=
-  {| de_deg := de_deg env; de_types := assoc_set (de_types env) v t |}.
+  {| de_deg := de_deg env; de_types := assoc_set (de_types env) v t; de_assigned := de_assigned env |}.
+Definition denv_set_assigned (env : denv) (v : vname) : denv :=
+  {| de_deg := de_deg env; de_types := de_types env; de_assigned := v :: de_assigned env |}.
+Definition denv_is_assigned (env : denv) (v : vname) : bool := existsb (vname_eqb v) (de_assigned env).
 Definition denv_is_local (env : denv) (v : vname) : bool :=
   match assoc_get (de_types env) v with Some TLocal => true | _ => false end.
 
@@ -383,6 +386,29 @@ Definition opt_range_infix (op : infix_op) (a b : option drange) : option drange
   match a, b with Some x, Some y => Some (range_infix op x y) | _, _ => None end.
 Definition opt_range_prefix (op : prefix_op) (a : option drange) : option drange :=
   match a with Some x => Some (range_prefix op x) | None => None end.
+
+(* constant_indices: Some true if every array index is known to be constant,
+   Some false if one is known not to be, None while an index degree is unknown *)
+Fixpoint constant_indices (acc : list (access expr)) : option bool :=
+  match acc with
+  | [] => Some true
+  | AComp _ :: tl => constant_indices tl
+  | AIdx x :: tl =>
+    (* result = result && index.degree()?.is_constant(): once an index is known
+       not to be constant, later indices are not inspected *)
+    match expr_deg x with
+    | None => None
+    | Some r => if range_is_constant r then constant_indices tl else Some false
+    end
+  end.
+
+(* the claim on an access/update given the range of the array *)
+Definition index_adjust (acc : list (access expr)) (rg : drange) : option drange :=
+  match constant_indices acc with
+  | Some true => Some rg
+  | Some false => Some (fst rg, DNonQuad)
+  | None => None
+  end.
 
 Definition all_constant (es : list expr) : bool :=
   forallb (fun e => match expr_deg e with Some r => range_is_constant r | None => false end) es.
@@ -452,23 +478,28 @@ Fixpoint pd_expr (env : denv) (e : expr) {struct e} : bool * expr :=
   | EAccess v acc k =>
     let '(b, acc') := pd_acc false acc in
     match denv_degree env v with
-    | Some rg => sc_set_deg b (EAccess v acc' k) rg
+    | Some rg =>
+      match index_adjust acc' rg with
+      | Some rg' => sc_set_deg b (EAccess v acc' k) rg'
+      | None => (b, EAccess v acc' k)
+      end
     | None => (b, EAccess v acc' k)
     end
   | EUpdate v acc rhe k =>
     let '(b1, rhe') := pd_expr env rhe in
     let '(b, acc') := pd_acc b1 acc in
-    match denv_degree env v with
-    | None =>
-      match expr_deg rhe' with
-      | Some rg => sc_set_deg b (EUpdate v acc' rhe' k) rg
+    let base :=
+        match denv_degree env v with
+        | None => if denv_is_assigned env v then None else expr_deg rhe'
+        | Some rv => iter_opt [Some rv; expr_deg rhe']
+        end in
+    match base with
+    | Some rg =>
+      match index_adjust acc' rg with
+      | Some rg' => sc_set_deg b (EUpdate v acc' rhe' k) rg'
       | None => (b, EUpdate v acc' rhe' k)
       end
-    | Some rv =>
-      match iter_opt [Some rv; expr_deg rhe'] with
-      | Some rg => sc_set_deg b (EUpdate v acc' rhe' k) rg
-      | None => (b, EUpdate v acc' rhe' k)
-      end
+    | None => (b, EUpdate v acc' rhe' k)
     end
   | EPhi args k =>
     match iter_opt (map (denv_degree env) args) with
@@ -520,6 +551,7 @@ Definition pd_stmt (env : denv) (s : stmt) : bool * stmt * denv :=
   | SSubst m v op rhe sval stype =>
     let '(b, rhe') := pd_expr env rhe in
     if denv_is_local env v then
+      let env := denv_set_assigned env v in
       match expr_deg rhe' with
       | Some rg =>
         if b then (true, SSubst m v op rhe' sval stype, env)
